@@ -2710,7 +2710,7 @@ var interestTable = map[string][]string{
 	"": {"Conn", "connDeadline", "Batch", "Writer", "partitionWriter", "writeBatch", "batchQueue", "writerStats",
 		"Reader", "reader", "readerStats", "Transport", "connPool", "connPoolState", "connGroup", "conn", "Client",
 		"RoundRobin", "LeastBytes", "leastBytesCounter", "Hash", "ReferenceHash", "randomBalancer",
-		"CRC32Balancer", "Murmur2Balancer", "summary"},
+		"CRC32Balancer", "Murmur2Balancer", "summary", "Generation", "ConsumerGroup"},
 	"/protocol":        {"pageBuffer", "page", "pageRef"},
 	"/compress/gzip":   {"Codec", "reader", "writer"},
 	"/compress/snappy": {"Codec", "reader", "writer", "xerialReader", "xerialWriter"},
